@@ -241,6 +241,48 @@ class SingleTile(Harness):
         return AND(ok, out is tile_img, not tile_img.ops)
 
 
+class TileURLBBox(Harness):
+    """a tile source with a %(bbox)s URL template asks upstream for the full rectangle of the tile (the rectangle the stored
+    tile is later georeferenced with), for every tile incl. border tiles overhanging the grid extent.
+    The '%.8f' text codec is outside: TileURLTemplate.substitute (dict formatting) is not entered; the grid handed to the real client.tile.bbox records the (symbolic) rectangle and
+    returns the sentinels 1,2,3,4, so the text shows order and pass-through."""
+    modules = ['mapproxy.grid', 'mapproxy.client.tile']
+    functions = ['client.tile.bbox', 'TileGrid.tile_bbox']
+
+    @classmethod
+    def build(cls, L, cfg):
+        g = L.mods['mapproxy.grid']
+        return dict(g=g, G=common.make_grid(g, cfg['grid']), ct=L.mods['mapproxy.client.tile'])
+
+    @classmethod
+    def inputs(cls, ctx, cfg):
+        tx, ty = int_var('tx'), int_var('ty')
+        gs = ctx['G'].grid_sizes[cfg['level']]
+        assume(AND(tx >= 0, ty >= 0, tx < gs[0], ty < gs[1]))
+        return dict(tx=tx, ty=ty)
+
+    @classmethod
+    def prop(cls, ctx, cfg, tx, ty):
+        G, ct = ctx['G'], ctx['ct']
+        level = cfg['level']
+        seen = []
+
+        class RecGrid(object):
+            def __getattr__(self, name):
+                return getattr(G, name)
+
+            def tile_bbox(self, *a, **kw):
+                seen.append(G.tile_bbox(*a, **kw))
+                return (1.0, 2.0, 3.0, 4.0)
+
+        url = 'BBOX=' + ct.bbox((tx, ty, level), RecGrid()) + '&'
+        want = G.tile_bbox((tx, ty, level))
+        if len(seen) != 1 or 'BBOX=1.00000000,2.00000000,3.00000000,4.00000000&' not in url:
+            return False
+        got = seen[0]
+        return AND(got[0] == want[0], got[1] == want[1], got[2] == want[2], got[3] == want[3])
+
+
 class FeatureInfoPoint(Harness):
     """feature info: the ground point of the clicked pixel (InfoQuery.coord) lies within the pixel the
     client clicked; same-SRS WMS info requests are forwarded with the same bbox/size/pixel; WMTS
@@ -566,6 +608,9 @@ def obligations(tier, seed):
         specs.append(spec(MOD, 'AxisOrder', 'wms130-axis-order/%s' % code, cfg=dict(srs=code), cost=2))
     for gname, level, d in (('utm_ll', 1, 1), ('frac_ul', 1, 1), ('frac_ll', 2, -1)) + ((('multi0_ul', 0, 1), ('utm_ul', 2, 1), ('utm_ul', 2, -1)) if tier == 'thorough' else ()):
         specs.append(spec(MOD, 'RescaledTile', 'rescaled-tile-sources-aligned/%s/L%d-from-L%d' % (gname, level, level + d), cfg=dict(grid=gname, level=level, dir=d), cost=20))
+    for gname, level in (('frac_ll', 1), ('frac_ul', 2), ('utm_ll', 1)) + ((('frac_ll', 3), ('utm_ul', 2), ('merc_ll', 2), ('multi0_ul', 1)) if tier == 'thorough' else ()):
+        specs.append(spec(MOD, 'TileURLBBox', 'tile-url-bbox-is-the-full-tile-rectangle/%s/L%d' % (gname, level), cfg=dict(grid=gname, level=level), cost=3))
+    specs.append(spec(MOD, 'TileURLBBox', 'twin/TileURLBBox', kind='witness', cfg=dict(grid='frac_ll', level=1)))
     specs.append(spec(MOD, 'RescaledTile', 'twin/RescaledTile', kind='witness', cfg=dict(grid='utm_ll', level=1, dir=1)))
     specs.append(spec(MOD, 'RescaledTile', 'canary/missing source tiles dropped from the mosaic list', kind='canary', cfg=dict(grid='utm_ll', level=1, dir=1), cost=10,
                       patches={'mapproxy.cache.tile': [("            tile_sources.append(t.source if t.source is not RESCALE_TILE_MISSING else None)",
@@ -602,11 +647,11 @@ META = dict(
                 'one tile returns the tile object itself; (d) WMTS GetFeatureInfo uses the rectangle of the addressed tile '
                 '(north-west addressing on either grid origin), InfoQuery.coord lies inside the clicked pixel, and a same-SRS WMS '
                 'info client forwards bbox/size/pixel unchanged.',
-    functions=sorted(set(Mosaic.functions + TransformSimple.functions + SingleTile.functions + FeatureInfoPoint.functions + TransformedInfoQuery.functions + AxisOrder.functions)),
+    functions=sorted(set(TileURLBBox.functions + Mosaic.functions + TransformSimple.functions + SingleTile.functions + FeatureInfoPoint.functions + TransformedInfoQuery.functions + AxisOrder.functions)),
     bounds='request rectangles up to 1.6 (thorough 2.5) tile spans; output/source resolutions within a factor 2; enumerated grids, levels and sizes',
     outside='reprojection between different SRS (pyproj FFI, transform_meshes error budget; the feature-info transfer to another SRS is checked with '
             'the projection replaced by axis-aligned affine maps), PIL resampling kernels, the text codec of request parameters (WMS 1.3.0 axis-order switching is checked with the BBOX codec stubbed by identity), '
-            'sub-extent placement in CacheMapLayer.get_map (bbox_position_in_image is executed under C17), upstream tile URL templates',
+            'sub-extent placement in CacheMapLayer.get_map (bbox_position_in_image is executed under C17), the %.8f text of the bbox in upstream tile URL templates (the rectangle handed to it is checked)',
     assumptions=['PIL Image.crop(box) and Image.transform(size, EXTENT, data) box semantics (pixel centre sampling)', 'float as exact rational'],
     trusted_base=['z3 5.1', 'engine/symex.py'],
 )
